@@ -167,6 +167,11 @@ func VerifyFunc(p *Program, fn *ssa.Function, cfg Config, opt Options) (res *Uni
 				u.oblOrder = append(u.oblOrder, name)
 			}
 		}
+		if u.Returns == 0 && len(u.Limits) == 0 && !opt.ViaContract {
+			// vacuity guard: every path was cut (bounded loop, infeasible
+			// branch) before any return - nothing was checked at a return
+			u.limit("vacuous unit: no path reached a return")
+		}
 		res.Obls = u.Results()
 		res.Paths = u.Paths + 1
 		res.Returns = u.Returns
